@@ -201,7 +201,7 @@ pub fn case(p: Profile) -> BoxedStrategy<Case> {
                 prop::collection::vec(step(&p3), p3.steps.0..=p3.steps.1),
             )
         })
-        .prop_map(|(cfg, script, steps)| Case { cfg, script, steps, matrix: None })
+        .prop_map(|(cfg, script, steps)| Case { cfg, script, steps, matrix: None, sweep: None })
         .boxed()
 }
 
@@ -302,7 +302,22 @@ pub fn matrix_case() -> BoxedStrategy<Case> {
                 script: Script::default(),
                 steps: vec![],
                 matrix: Some(MatrixSpec { idle, held, reject_backend }),
+                sweep: None,
             }
+        })
+        .boxed()
+}
+
+/// pause-free histories for the bounded-preemption sweep
+pub fn sweep_case(prop: &str, thorough: bool) -> BoxedStrategy<Case> {
+    let mut p = profile_for(prop, false);
+    p.pause_pct = 0;
+    p.steps = (2, if thorough { 12 } else { 9 });
+    p.nevers = false;
+    case(p)
+        .prop_map(|mut c| {
+            c.sweep = Some(1);
+            c
         })
         .boxed()
 }
